@@ -332,8 +332,23 @@ def run(ctx):
             if t["k"] != "switch" or b.is_cleanup(bb) or "0" not in t["vals"]:
                 continue
             v = b.origin_op(t["discr"], bb, len(b.blocks[bb]["stmts"]))
-            if not (isinstance(v, tuple) and v[0] == "bin" and v[1] in ("Ne", "Eq") and T.is_const_int(v[3], 0) and
-                    T.contains(v[2], lambda x: T.is_call(x, r"ReadBytesExt::read_u8$"))):
+            direct = False
+            if not (isinstance(v, tuple) and v[0] == "bin" and v[1] in ("Ne", "Eq") and T.is_const_int(v[3], 0)):
+                continue
+            if not T.contains(v[2], lambda x: T.is_call(x, r"ReadBytesExt::read_u8$")):
+                # the sign byte taken off the front some other way: `let Some((&neg, rest)) = v.split_first()`, `v[0]`, `*v.first()?`
+                rd0 = cursor.reading(v[2])
+                if rd0 is not None and rd0["width"] == 1 and rd0["off"] == Aff(0) and T.contains(rd0["base"], lambda x: isinstance(x, tuple) and x and x[0] == "variant" and x[2] == "Time"):
+                    direct = True
+                else:
+                    continue
+            if direct:
+                nsign += 1
+                zt = t["tgts"][t["vals"].index("0")]
+                neg_edge = t["otherwise"] if v[1] == "Ne" else zt
+                returns = any(b.term(x)["k"] == "return" for x in b.reachable(neg_edge))
+                ctx.ob("C08.length-forms", returns, "From<Value> for Duration: a TIME whose sign byte is set (a negative TIME, legal on the wire) only reaches a diverging branch (unimplemented!/panic): the conversion panics",
+                       fn=b.path, construct="negative-time", where=b.where(bb), sample={"rule": "length-forms/sign", "returns_on_negative": returns})
                 continue
             # the first byte read from the value: no earlier cursor read dominates this one
             rd = T.find(v[2], lambda x: T.is_call(x, r"ReadBytesExt::read_u8$"))
